@@ -60,6 +60,9 @@ PROPS['C12']['bridge'] += ['locks_sync_disciplined', 'locks_async_disciplined', 
 PROPS['C14']['bridge'] += ['locks_async_disciplined']
 PROPS['C20']['bridge'] += ['locks_sync_disciplined']
 
+# validate-first discipline of the command bodies (Generated/Purity, Bridge/Purity): no body can raise after it changed something
+PROPS['C08']['bridge'] += ['purity_bodies_validate_first', 'purity_covers_all_commands']
+
 # theorem lists are kept in a separate generated-by-hand table so that they can grow without touching the above
 try:
     from obligations import OBLIGATIONS
